@@ -39,6 +39,9 @@ class Query:
         self.input_stop = 'spec_step' if kind == 'harness' else None
    # harness inputs are complete when the spec is first called
 
+import threading, contextlib
+_RETRY_LOCK = threading.Lock(); _NOLOCK = contextlib.nullcontext()
+
 def _limits():
     import resource
     resource.setrlimit(resource.RLIMIT_AS, (MEM_KB * 1024, MEM_KB * 1024))
@@ -66,6 +69,7 @@ def unit_text(builder):
     if builder not in _unit_cache:
         S.PROVENANCE.clear()
         text = builder()
+        text, _n_constorder = S.r_constorder(text)                     # front-end defect guard (static initialisation order)
         S.lint_ternaries(text, getattr(builder, '__name__', 'unit'))   # front-end defect guard (DESIGN.md section 9)
         _unit_cache[builder] = (text, list(S.PROVENANCE))
     return _unit_cache[builder]
@@ -125,15 +129,21 @@ def run_query(q, pid, tier):
             cmd += ['--' + q.backend]
         cmd += q.extra_cbmc
         res['cmd'] = ' '.join(cmd)
-        rc, so, se, secs = sh(cmd, wd, q.timeout, out=os.path.join(wd, 'cbmc.json'))
-        res['solver_secs'] = secs
-        if se == 'TIMEOUT':
-            raise Undecided(f"cbmc timeout after {q.timeout}s")
-        try:
-            data = json.load(open(os.path.join(wd, 'cbmc.json')))
-        except Exception as e:
-            raise Undecided(f"cbmc output unreadable (rc={rc}): {e}; stderr: {se[-300:]}")
-        msgs = [e.get('messageText', '') for e in data if isinstance(e, dict) and 'messageText' in e]
+        for attempt in range(3):
+            # a failed start of the external solver (fork of a multi-GB cbmc process under memory pressure) shows up as
+            # "unexpected response": retried, one query at a time
+            with (_RETRY_LOCK if attempt else _NOLOCK):
+                rc, so, se, secs = sh(cmd, wd, q.timeout, out=os.path.join(wd, 'cbmc.json'))
+            res['solver_secs'] = secs
+            if se == 'TIMEOUT':
+                raise Undecided(f"cbmc timeout after {q.timeout}s")
+            try:
+                data = json.load(open(os.path.join(wd, 'cbmc.json')))
+            except Exception as e:
+                raise Undecided(f"cbmc output unreadable (rc={rc}): {e}; stderr: {se[-300:]}")
+            msgs = [e.get('messageText', '') for e in data if isinstance(e, dict) and 'messageText' in e]
+            if not any('external SAT solver has provided an unexpected response' in m for m in msgs): break
+            res['solver_retries'] = attempt + 1
         for m in msgs:
             if 'ignoring forall' in m or 'Parse Error' in m or 'out of memory' in m.lower():
                 raise Undecided(f"cbmc message: {m[:200]}")
@@ -315,7 +325,7 @@ def native_replay(q, ob, pid, outdir):
     cmd = ['g++', '-std=c++17', '-O1', '-g', '-fsanitize=address,undefined', '-fno-sanitize-recover=undefined',
            '-I', REPO, '-I', os.path.join(REPO, 'secp256k1/include'), '-I', os.path.join(VERIF, 'contracts'), '-I', os.path.join(VERIF, 'replay'),
            '-DHAVE_CONFIG_H', '-I', os.path.join(REPO, 'config')] + ['-D' + d for d in rp.get('defines', [])] + [src] + \
-          [os.path.join(REPO, s) for s in rp.get('sources', [])] + rp.get('libs', []) + ['-o', exe]
+          [os.path.join(REPO, s) for s in rp.get('sources', [])] + [l.replace('{REPO}', REPO) for l in rp.get('libs', [])] + ['-o', exe]
     rc, so, se, _ = sh(cmd, outdir, 600)
     if rc != 0:
         return 'error', 'replay driver failed to build: ' + (se or so)[-800:]
@@ -471,8 +481,11 @@ def run_check(pid, queries, tier, meta):
         'wall_s': round(wall, 1),
         'violations': n_viol,
     }
-    os.makedirs(os.path.join(VERIF, 'evidence'), exist_ok=True)
-    json.dump(ev, open(os.path.join(VERIF, 'evidence', pid + '.json'), 'w'), indent=1)
+    # evidence/<id>.json describes a full run of the registered command against /repo; runs restricted with VERIF_ONLY or
+    # pointed at a scratch tree (seed testing) write elsewhere so that they never replace it
+    evdir = os.environ.get('VERIF_EVIDENCE_DIR') or (os.path.join(VERIF, 'build', 'evidence_partial') if (os.environ.get('VERIF_ONLY') or os.environ.get('VERIF_REPO')) else os.path.join(VERIF, 'evidence'))
+    os.makedirs(evdir, exist_ok=True)
+    json.dump(ev, open(os.path.join(evdir, pid + '.json'), 'w'), indent=1)
     for l in out_lines: print(l)
     if undecided:
         print(f"UNDECIDED ({len(undecided)}):")
